@@ -44,7 +44,10 @@ def capacity_goal(ex, st, dialect, known):
     if t in CAP:
         a, b = CAP[t]; goal = z3.And(a <= lo, hi <= b)
     elif t in ("decimal", "number"):
-        goal = z3.BoolVal(True)       # decimal(p, 0) / number(p, 0) with p >= the magnitude: more digits than any limit of that magnitude has (10^p > p)
+        # decimal(p[, 0]) / number(p, 0) holds p digits: p has to be the number of digits of the magnitude (A-INT: a number of d digits is below 10^d)
+        p_ = r[1] if len(r) > 1 else None
+        goal = z3.BoolVal(False) if p_ is None else (lift(p_).z == z3.Length(z3.IntToStr(m)))
+        if len(r) > 2: goal = z3.And(goal, lift(r[2]).z == 0)
     else: goal = z3.BoolVal(False)
     if known:
         if dialect == "Transact-SQL" and t == "tinyint": goal = z3.Or(goal, lo < 0)                                  # K-8 (a): tinyint is unsigned
@@ -69,7 +72,7 @@ def unit_dialect_sql_type():
                             returns=[Clause(lambda ex, st, d=d: Sym(BOOL, capacity_goal(ex, st, d, known)), "column-type-can-store-both-limits-of-the-bounded-integer-range", props=["C19"])],
                             raises={}, expect=["return"], n_loops=0, modifies=[], raises_only_props=["C19"]),
                         "callees": {"sql.assert_is_valid_ansi_type": ModelContract(lambda ex, st, fn, a, k: iter([(st, None)]))}, "label": d,
-                        "assumptions": ["capacities: tinyint 0..255 (unsigned), smallint +-2^15, int/integer +-2^31, bigint +-2^63; decimal(p,0)/number(p,0) with p >= the magnitude is taken as sufficient"]
+                        "assumptions": ["capacities: tinyint 0..255 (unsigned), smallint +-2^15, int/integer +-2^31, bigint +-2^63; decimal(p[,0]) / number(p,0) holds numbers of up to p digits: p must be the digit count of the magnitude (str(int) is SMT-LIB int.to.str for non-negative integers)"]
                                        + (["known finding K-8: excluded regions - Transact-SQL tinyint for a negative lower limit; ANSI keeps 'int' beyond 32 bit"] if known else [])})
         return out
     return ProofUnit("sql.dialect.sql_type", "dialect sql_type ladders: the type chosen for ('int', magnitude) can store both limits, for all integers", ["C19"], make, None)
@@ -142,7 +145,7 @@ def unit_create_table_statement():
                                               havoc={"result": STR, "first_field": BOOL, "column_def": STR, "field_name": STR, "field_type": STR, "length": Opt(INT), "precision": Opt(INT), "is_not_null": BOOL, "default_value": Opt(STR)},
                                               ghost_havoc={"cols_done": INT, "seps_done": INT})},
                 expect=["return"], n_loops=1, modifies=[])
-        return {"contract": c, "callees": {"ref:SqlFactory.sql_fields": m_sql_fields, "ref:Dialect.is_keyword": m_is_keyword}, "spec_functions": {"has_head": sf_has_head},
+        return {"contract": c, "callees": {"ref:SqlFactory.sql_fields": m_sql_fields, "ref:Dialect.is_keyword": m_is_keyword, "ref:Dialect.sql_string_escaped": lambda ex, st, recv, a, k: iter([(st, fresh(STR, "escaped")[0])])}, "spec_functions": {"has_head": sf_has_head},
                 "assumptions": ["is_keyword of the dialect is used through its contract (verified: sql.is_keyword)", "sql_fields() is used through its contract: one tuple (name, type, length, precision, allowed-to-be-empty, default) per field in CID order (verified: sql.SqlFactory.sql_fields)",
                                 "the statement text is constrained through ghost code at the statements that extend it (count and order of column definitions, their beginning, the NOT NULL suffix); the rendering of "
                                 "length/precision and the full text are compared by the bounded table C19.table",
@@ -200,7 +203,7 @@ KEYWORD_SPOT = {"ANSI": "select table order group year level key user date value
 # reserved words a dialect's vendor lists with a footnote mark (IBM's Db2 table prints 'FIRST 1', 'SYSDATE 1', 'END-EXEC 2'): reserved all the same; other dialects may or may not reserve them
 KEYWORD_ALSO = {"DB2": "first last next old prior sysdate systimestamp currval organization period end-exec",
                 # reserved words of Oracle SQL (SQL Language Reference, appendix 'Oracle SQL Reserved Words') that are no reserved words of the PL/SQL language
-                "PL/SQL": "number column integer rowid rownum varchar varchar2 smallint sysdate uid session access audit trigger validate whenever rows"}
+                "PL/SQL": "number column integer rowid rownum varchar varchar2 smallint sysdate uid session access audit trigger validate whenever rows column_value nested_table_id"}
 # real keywords that end in a digit (Oracle): every other entry 'word<digit>' of a keyword table is a footnote mark glued to the word
 KEYWORDS_ENDING_IN_A_DIGIT = {"like2", "like4", "sb1", "sb2", "sb4", "ub1", "ub2", "ub4", "varchar2", "nvarchar2", "utf8", "int1", "int2", "int4", "int8", "float4", "float8"}
 
@@ -265,6 +268,12 @@ def unit_c19_table():
                     if known and ((d == "Transact-SQL" and t == "tinyint" and lo < 0) or (d == "ANSI" and t == "int")): stats["known"] += 1; return None
                     return {"expected": "a %s type able to store %d and %d" % (d, lo, hi), "observed": t}
             elif t not in ("decimal", "number"): return {"expected": "a numeric column type", "observed": t}
+            else:
+                # decimal(p[, 0]) / number(p, 0): p digits, i.e. values up to 10^p - 1 - enough for both limits, and no more digits than the larger limit has
+                p_ = int(re.match(r"\((\d+)", m.group(2)).group(1)) if m.group(2) else None
+                digits = max(len(str(abs(lo))), len(str(abs(hi))))
+                if p_ is None or not (10 ** min(p_, 400) > max(abs(lo), abs(hi)) and p_ <= digits):
+                    return {"expected": "%s(%d) - as many digits as the larger limit has" % (t, digits), "observed": m.group(0).strip()}
             return None
         r1 = sweep("C19/table/integer ranges at every type boundary", cases(), check, "bounded",
                    "4 dialects x all pairs lo <= hi over {+-(2^7, 2^8, 2^15, 2^16, 2^31, 2^32, 2^63) +- 1, 0, +-1}" + (" (regions of known finding K-8 excluded)" if known else ""),
@@ -364,6 +373,19 @@ def unit_c19_table():
             finally: shutil.rmtree(tmp, ignore_errors=True)
         res.append(sweep("C19/cli/--create writes the statement of the CID whatever container it is stored in", create_cases(), create_check, "bounded", "the shape CID stored as csv, ods and xlsx",
                          function="sql.write_create / applications.process", unit="C19.table", props=["C19", "C17"]))
+        # default clauses: a column gets one exactly when its field has a non-empty empty value; a number as it is, a text as a quoted SQL string
+        def default_cases():
+            yield (0, " default 0"); yield ("it's", " default 'it''s'"); yield ("", ""); yield (None, "")
+        def default_check(c):
+            from cutplace import interface, sql, fields
+            ev, want = c
+            cid = interface.create_cid_from_string("d,format,delimited\nf,a\n")
+            cls = fields.IntegerFieldFormat if isinstance(ev, int) else fields.TextFieldFormat
+            cid.add_field_format(cls("b", True, "", "", cid.data_format, empty_value=ev))
+            try: line = sql.SqlFactory(cid, "t").create_table_statement().splitlines()[2]
+            except Exception as e: return {"expected": "a CREATE TABLE statement", "observed": "%s: %s" % (type(e).__name__, e)}
+            return None if line.strip().endswith(("b int" if isinstance(ev, int) else "b varchar") + want) else {"expected": "column b ...%r" % want, "observed": line.strip()}
+        res.append(sweep("C19/table/default clauses", default_cases(), default_check, "bounded", "empty values 0, \"it's\", '' and None", describe=lambda c: {"empty_value": c[0]}, function="sql.SqlFactory.create_table_statement", unit="C19.table"))
         # K-8 witnesses
         w = []
         try:
